@@ -12,7 +12,7 @@ META = {
     "level": "proof",
     "design_ref": "DESIGN.md §6 C12, notes/design-value.md",
     "text": "The Lean model (Qentem/Model/Value.lean, ValueOps.lean) gives every operation family of Value a total function on documents (objects keep capacity and removed slots, so Size() and slot numbers are predicted exactly). Theorems state the laws of the abstract document for every document and every operation sequence. Each run feeds the same operation sequences (exhaustive short sequences over a small alphabet, then random sequences with two-operand operations, pointers, every overload variant) to the real code under ASan/UBSan and to the compiled model and compares, after every step, a deep dump (public slot iteration), all typed getters/coercions, key and index probes, == against every root, and Stringify. The laws are additionally evaluated on the implementation's own output.",
-    "note": "Trusted: Lean kernel; axioms ⊆ {propext, Quot.sound, Classical.choice}; the correspondence harness and generators. Not covered: aliasing operands (v += v, v = v[k]), pointer cycles, operator=(ValueType::ValuePtr), real->text and text->number conversions beyond a fixed table (C09/C10), Sort (C15).",
+    "note": "Trusted: Lean kernel; axioms ⊆ {propext, Quot.sound, Classical.choice}; the correspondence harness and generators. Aliasing operands are covered for the container-typed overloads (operand taken from any location of the forest: other root, sibling, descendant, ancestor, the destination itself) and for copy/move between related values; excluded and documented: self move through &&, moving an ancestor's container into its own descendant, pointer cycles, operator=(ValueType::ValuePtr); real->text and text->number conversions beyond a fixed table (C09/C10), Sort (C15).",
 }
 
 THEOREMS = [
@@ -121,13 +121,22 @@ def parse_loc(l):
     return int(parts[0]), sels
 
 
-def fast_index(key):
+PROBE_KEYS = ["-", "97", "98", "97.97", "97.98", "49", "48", "48.48", "48.48.55", "50", "58", "47", "49.97", "32.49", "43.49", "45.48",
+              "52.50.57.52.57.54.55.50.57.53", "52.50.57.52.57.54.55.50.57.54", "52.50.57.52.57.54.55.50.57.55",
+              "57.57.57.57.57.57.57.57.57.57.57", "48.48.48.48.48.48.48.48.48.48.49", "48.48.48.48.48.48.48.48.48.49", "217.161", "196.177"]
+KIND_NUM = {"U": 0, "p": 1, "o": 2, "a": 3, "s": 4, "n": 5, "i": 6, "r": 7, "T": 8, "F": 9, "N": 10}
+
+
+def array_key_index(key):
+    """the element a key denotes on an array: 1..10 decimal digits, else none (Value::GetValue(key, length))."""
     if key == "-":
-        return 0
-    n = None
-    for u in key.split("."):
-        c = int(u)
-        n = (c - 48) % 2 ** 32 if n is None else (n * 10 + c - 48) % 2 ** 32
+        return None
+    us = [int(u) for u in key.split(".")]
+    if len(us) > 10 or any(u < 48 or u > 57 for u in us):
+        return None
+    n = 0
+    for u in us:
+        n = n * 10 + (u - 48)
     return n
 
 
@@ -145,8 +154,8 @@ def child(t, sel, vivified):
             return v if (vivified or v != ("U",)) else None
         return None
     if t[0] == "a":
-        i = fast_index(arg) if kind == "k" else arg
-        if i < len(t[1]):
+        i = array_key_index(arg) if kind == "k" else arg
+        if i is not None and i < len(t[1]):
             v = t[1][i]
             return v if (vivified or v != ("U",)) else None
         return None
@@ -361,6 +370,19 @@ def check_laws(ops, impl_line):
             for q in range(4):
                 if len(ef) == 4 and tr_[0] != "p" and cur[q][0] != "p" and tr_[0] != cur[q][0] and ef[q] == "1":
                     out.append(("eq-cross-kind", "root %s == root %s" % (d, roots[q][0])))
+            # a keyed read of an array: the key must be a plain decimal index of an existing, defined element; an array
+            # has no member under any other key ("" , ":", "4294967296", "+1", eleven digits, non-ASCII digits, ...)
+            if tr_[0] == "a" and "q" in f:
+                got = f["q"].split(",")
+                if len(got) == len(PROBE_KEYS):
+                    for key, g_ in zip(PROBE_KEYS, got):
+                        i_ = array_key_index(key)
+                        want_ = "~"
+                        if i_ is not None and i_ < len(tr_[1]) and tr_[1][i_] != ("U",):
+                            want_ = str(KIND_NUM[tr_[1][i_][0]])
+                        if g_.split("!")[0] != want_:
+                            out.append(("array-key-read", "array %s: GetValue(key %s) gives kind %s, expected %s" % (d[:120], key, g_, want_)))
+                            break
             if tr_[0] == "o" and f.get("z") != str(len(tr_[2])):
                 out.append(("size", "root %s has Size() %s" % (d, f.get("z"))))
             if tr_[0] == "a" and f.get("z") != str(len(tr_[1])):
